@@ -202,8 +202,8 @@ def _peer_test(P, t):
     return False
 
 
-def r4_peers(ctx):
-    ctx.set_rule('C08.R4')
+def r4_peers(ctx, rule='C08.R4'):
+    ctx.set_rule(rule)
     f = ctx.anchor(G + 'Gate::connect')
     if not f:
         return
